@@ -169,6 +169,7 @@ func vMswRun(t *testing.T) {
 	v.onReply = func(rp vReply) { rec.add(rp.req, rp.result) }
 	kinds := vMsKinds()
 	req, key := 100, 100
+	kcMsw0 := v.counters().KeyCount
 	for i := 0; i < n; i++ {
 		hold := kinds[i%len(kinds)]
 		px := vMsPrefix(hold)
@@ -358,6 +359,27 @@ func vMswRun(t *testing.T) {
 				out.monitor(px+":ms-reply-count", fmt.Sprintf("%s with %d ms: request %d received %d replies: %v", what, T, probe, n, rec.get(probe)), replay)
 			}
 		}
+	}
+	// C17: every wait was answered, every hold has ended or was released: once the parks are over (a request granted or cancelled while
+	// parked leaves a dead entry that the park goroutine must drop) and 20 s of server time have passed, no key record may be left
+	for w := 0; w < 400 && vMsPending(v.db); w++ {
+		time.Sleep(10 * time.Millisecond)
+	}
+	for k := 0; k < 20; k++ {
+		v.tick()
+	}
+	kc := v.counters().KeyCount
+	for try := 0; try < 15; try++ {
+		v.db.managerGlocks[0].Lock()
+		v.db.flushWaitRemoveLockManagerQueue(0)
+		v.db.managerGlocks[0].Unlock()
+		if kc = v.counters().KeyCount; kc == kcMsw0 && !vMsPending(v.db) {
+			break
+		}
+		time.Sleep(200 * time.Millisecond)
+	}
+	if kc != kcMsw0 {
+		out.monitor("C17:keycount-after-drain:millisecond", fmt.Sprintf("KeyCount is %d (baseline %d) after every millisecond wait was answered, every hold ended and 20 s passed", kc, kcMsw0), map[string]interface{}{"mode": "msw", "seed": seed})
 	}
 }
 
